@@ -89,6 +89,14 @@ func init() {
 			_, ok := fr.i.side[fmt.Sprintf("wsclosed:%p", p)]
 			return ok
 		},
+		zz + "DropSpawnedFrom": func(fr *frame, a []value) value {
+			for k, th := range fr.i.spawned {
+				if k >= int(asInt64(a[0])) {
+					th.done = true
+				}
+			}
+			return nil
+		},
 		zz + "DropSpawned": func(fr *frame, a []value) value {
 			for _, th := range fr.i.spawned {
 				th.done = true
